@@ -82,13 +82,16 @@ fn check_laws(run: &mut Run, a: &Value, b_: &Value, c: &Value) {
         (Value::Int(i), Value::Float(Float(f))) if !f.is_nan() => {
             let want = exact_int_float(*i, *f);
             if ab != want {
-                run.fail(desc(), "D45:int-real-derived-order", format!("derived cmp(Int {}, Float {})={:?}, numeric order is {:?}", i, f, ab, want));
+                // known finding D45 only if the answer is EXACTLY what the finding says: every INT below every REAL
+                let class = if ab == Ordering::Less { "D45:int-real-derived-order" } else { "int-real-order-wrong" };
+                run.fail(desc(), class, format!("derived cmp(Int {}, Float {})={:?}, numeric order is {:?}", i, f, ab, want));
             }
         }
         (Value::Float(Float(f)), Value::Int(i)) if !f.is_nan() => {
             let want = exact_int_float(*i, *f).reverse();
             if ab != want {
-                run.fail(desc(), "D45:int-real-derived-order", format!("derived cmp(Float {}, Int {})={:?}, numeric order is {:?}", f, i, ab, want));
+                let class = if ab == Ordering::Greater { "D45:int-real-derived-order" } else { "int-real-order-wrong" };
+                run.fail(desc(), class, format!("derived cmp(Float {}, Int {})={:?}, numeric order is {:?}", f, i, ab, want));
             }
         }
         (Value::Float(Float(x)), Value::Float(Float(y))) if !x.is_nan() && !y.is_nan() => {
